@@ -8,7 +8,7 @@ use cooklang::convert::Converter;
 use cooklang::ingredient_list::{CategorizedIngredientList, IngredientList};
 use cooklang::model::{Ingredient, IngredientReferenceTarget};
 use cooklang::quantity::{GroupedQuantity, GroupedValue, Number, Quantity, QuantityValue, ScaledQuantity, Value};
-use cooklang::{CooklangParser, Extensions, ScaledRecipe};
+use cooklang::{CooklangParser, Extensions, Modifiers, ScaledRecipe};
 use std::collections::{BTreeMap, BTreeSet};
 
 // ---------------------------------------------------------------- canonical rendering (mirrors Driver/Group.lean)
@@ -310,7 +310,7 @@ fn recipe_text(rng: &mut Rng) -> String {
             let q = if rng.chance(1, 7) { String::new() } else { qty_text(rng) };
             let comp = match rng.below(16) {
                 0 | 1 | 2 if defined.contains(&name) => format!("@&{name}{{{q}}}"),
-                0 => format!("@&{name}{{{q}}}"), // reference to something not defined: the parser rejects it
+                0 if rng.chance(1, 5) => format!("@&{name}{{{q}}}"), // reference to something not defined: an error diagnostic
                 3 => format!("@-{name}{{{q}}}"),
                 4 => format!("@?{name}{{{q}}}"),
                 5 => format!("@+{name}{{{q}}}"),
@@ -332,14 +332,18 @@ fn recipe_text(rng: &mut Rng) -> String {
 }
 
 /// parse + scale; afterwards some quantities are replaced by generated ones (fractions with error, ranges, text with unit …)
-fn make_recipe(rng: &mut Rng, parser: &CooklangParser, conv: &Converter, text: &str) -> Option<ScaledRecipe> {
-    let recipe = parser.parse(text).into_output()?;
+fn make_recipe(rng: &mut Rng, parser: &CooklangParser, conv: &Converter, text: &str) -> Option<(ScaledRecipe, bool)> {
+    // a recipe with error diagnostics may still come with an output (e.g. a reference without definition stays a
+    // "definition" carrying REF): such recipes are outside the property ("valid recipes"), compared with the model only
+    let pass = parser.parse(text);
+    let valid = pass.is_valid();
+    let recipe = pass.into_output()?;
     let mut scaled = match rng.below(5) { 0 => recipe.scale(2.0, conv), 1 => recipe.scale(0.5, conv), _ => recipe.default_scale() };
     if rng.chance(1, 3) {
         let fam = family(rng);
         for i in scaled.ingredients.iter_mut() { if rng.chance(1, 2) { i.quantity = if rng.chance(1, 8) { None } else { Some(quantity(rng, &fam)) }; } }
     }
-    Some(scaled)
+    Some((scaled, valid))
 }
 
 /// what the recipe's own tables say, read from the reference side: quantity j belongs to its definition
@@ -350,6 +354,30 @@ fn owner(r: &ScaledRecipe, j: usize) -> Option<usize> {
         Some((d, IngredientReferenceTarget::Ingredient)) => Some(d),
         Some(_) => None, // refers to a step or a section: stands for no ingredient
     }
+}
+
+/// model-only comparison for recipes that carry error diagnostics
+fn recipes_corr_only(ctx: &mut Ctx, conv: &Converter, recipes: &[ScaledRecipe], texts: &[String], aisle_text: Option<&str>) {
+    let input = format!("(recipes with error diagnostics) {texts:?}");
+    ctx.count("list:with-error-diagnostics(model-only)");
+    let rspec = recipes.iter().map(spec_recipe).collect::<Vec<_>>().join(" ");
+    for r in recipes {
+        match guarded(|| r.group_ingredients(conv).into_iter().map(|g| format!("{}:{}", g.index, render_group(&g.quantity))).collect::<Vec<_>>().join(" ## ")) {
+            Ok(s) => ctx.case(format!("gr ingredients {}", spec_recipe(r)), s, true, input.clone()),
+            Err(p) => { ctx.oracle_fail(input.clone(), format!("group_ingredients: panic {p}"), panic_signature(&p)); return; }
+        }
+    }
+    let list = match guarded(|| { let mut l = IngredientList::new(); for r in recipes { l.add_recipe(r, conv); } l }) {
+        Ok(l) => l,
+        Err(p) => { ctx.oracle_fail(input.clone(), format!("add_recipe: panic {p}"), panic_signature(&p)); return; }
+    };
+    ctx.case(format!("gr list {rspec}"), render_list(&list), !list.is_empty(), input.clone());
+    if let Some(a) = aisle_text { if let Ok(conf) = aisle::parse(a) {
+        match guarded(|| list.categorize(&conf)) {
+            Ok(c) => ctx.case(format!("gr catlist {} {rspec}", enc_text(a)), render_categorized(&c), true, input.clone()),
+            Err(p) => ctx.oracle_fail(input, format!("categorize: panic {p}"), panic_signature(&p)),
+        }
+    } }
 }
 
 fn recipes_case(ctx: &mut Ctx, conv: &Converter, recipes: &[ScaledRecipe], texts: &[String], aisle_text: Option<&str>) {
@@ -389,7 +417,9 @@ fn recipes_case(ctx: &mut Ctx, conv: &Converter, recipes: &[ScaledRecipe], texts
                 ctx.oracle_fail(input.clone(), format!("ingredient #{d} ({}) with its references: {diff}", r.ingredients[*d].name), "c10:group-counts-once".into());
             }
             let i = &r.ingredients[*d];
-            if i.modifiers().should_be_listed() { expected.entry(i.display_name().into_owned()).or_default().join(&want); ctx.count("ing:listed-definition"); }
+            // listed = a definition that is not hidden (decided on the flag bits, not with should_be_listed())
+            let hidden = i.modifiers().bits() & Modifiers::HIDDEN.bits() != 0;
+            if !hidden { expected.entry(i.display_name().into_owned()).or_default().join(&want); ctx.count("ing:listed-definition"); }
             else { ctx.count("ing:unlisted-definition"); }
         }
         if let Some((d, _)) = per_def.iter().next() { ctx.oracle_fail(input.clone(), format!("quantities owned by ingredient #{d} are grouped nowhere"), "c10:group-counts-once".into()); }
@@ -511,7 +541,7 @@ fn corpus_cases(ctx: &mut Ctx, conv: &Converter, parser: &CooklangParser) {
         let Ok(text) = std::fs::read_to_string(&f) else { continue };
         let (a, rest) = text.split_once("====\n").unwrap_or(("", &text));
         let texts: Vec<String> = rest.split("----\n").map(|s| s.to_string()).collect();
-        let recipes: Vec<ScaledRecipe> = texts.iter().filter_map(|t| parser.parse(t).into_output().map(|r| r.default_scale())).collect();
+        let recipes: Vec<ScaledRecipe> = texts.iter().filter_map(|t| parser.parse(t).into_result().ok().map(|r| r.0.default_scale())).collect();
         if recipes.len() != texts.len() { ctx.notes.push(format!("corpus file {f:?}: a recipe does not parse")); continue; }
         ctx.count("corpus");
         recipes_case(ctx, conv, &recipes, &texts, Some(a));
@@ -632,15 +662,15 @@ temperature totals (units with an offset) are compared with the model only".into
     let mut parsed = 0u64;
     for _ in 0..(if ctx.thorough { 60_000 } else { 6000 }) {
         let k = 1 + rng.below(4);
-        let mut texts = vec![]; let mut recipes = vec![];
+        let mut texts = vec![]; let mut recipes = vec![]; let mut all_valid = true;
         for _ in 0..k {
             let t = recipe_text(&mut rng);
-            match make_recipe(&mut rng, &parser, &conv, &t) { Some(r) => { texts.push(t); recipes.push(r); } None => ctx.count("recipe:rejected-by-the-parser") }
+            match make_recipe(&mut rng, &parser, &conv, &t) { Some((r, valid)) => { texts.push(t); recipes.push(r); all_valid &= valid; } None => ctx.count("recipe:rejected-by-the-parser") }
         }
         if recipes.is_empty() { continue; }
         parsed += 1;
         let a = if rng.chance(2, 3) { Some(aisle_text(&mut rng)) } else { None };
-        recipes_case(ctx, &conv, &recipes, &texts, a.as_deref());
+        if all_valid { recipes_case(ctx, &conv, &recipes, &texts, a.as_deref()); } else { recipes_corr_only(ctx, &conv, &recipes, &texts, a.as_deref()); }
         if rng.chance(1, 6) { malformed_case(ctx, &mut rng.fork(7), &conv, &recipes[0]); }
     }
     ctx.count_n("recipe:lists", parsed);
